@@ -916,6 +916,7 @@ def all_same(self: "ref:DocumentationAggregator", o: "ref:DocumentationAggregato
 class enterCommand_invocation_c:
     """Every command passes here.  Case table taken from the statements of C02 / C03 / C08 / C09."""
     props = ["C02", "C03", "C08", "C09", "C11"]
+    clause_props = {"cpp_class_documented_flag_off": ["C08"]}
     types = {"params": "list[str]", "param_names": "list[str]"}
     raises = {"CMakeSyntaxException": lambda self, ctx:
               ((auto(self, ctx, "function") and self.settings.input.include_undocumented_function) or
